@@ -14,10 +14,20 @@ type State struct {
 	alloc  Term
 	epoch  string
 	known  map[string][]Val // contents of small heap arrays allocated by this function (varargs), by ref term
+	// every reference stored in a heap family is below the allocation counter at the time the family was last
+	// written (hbound), or below epochBound for families not written since the start / the last full havoc
+	hbound     map[string]Term
+	epochBound Term
 }
 
 func (s *State) clone() *State {
-	n := &State{locals: make(map[any]Val, len(s.locals)), heap: make(map[string]Term, len(s.heap)), alloc: s.alloc, epoch: s.epoch}
+	n := &State{locals: make(map[any]Val, len(s.locals)), heap: make(map[string]Term, len(s.heap)), alloc: s.alloc, epoch: s.epoch, epochBound: s.epochBound}
+	if len(s.hbound) > 0 {
+		n.hbound = make(map[string]Term, len(s.hbound))
+		for k, v := range s.hbound {
+			n.hbound[k] = v
+		}
+	}
 	for k, v := range s.locals {
 		n.locals[k] = v
 	}
@@ -83,6 +93,10 @@ func (e *Engine) heapVersion(st *State) Term {
 func (e *Engine) heapSet(st *State, name string, t Term) {
 	e.cur.heapSorts[name] = t.Sort
 	st.heap[name] = e.cur.log.define(name, t)
+	if st.hbound == nil {
+		st.hbound = map[string]Term{}
+	}
+	st.hbound[name] = st.alloc
 }
 
 // inEdge is one incoming control-flow edge for a merge.
@@ -220,7 +234,56 @@ func (e *Engine) merge(ins []inEdge) *State {
 		}
 		out.alloc = f
 	}
+	// allocation bounds of heap families: identical on all edges, else the merged counter (an upper bound)
+	bnd := func(s *State, k string) Term {
+		if b, ok := s.hbound[k]; ok {
+			return b
+		}
+		return s.epochBound
+	}
+	out.epochBound = ins[0].st.epochBound
+	for _, in := range ins[1:] {
+		if in.st.epochBound.S != out.epochBound.S {
+			out.epochBound = out.alloc
+		}
+	}
+	hb := map[string]bool{}
+	for _, in := range ins {
+		for k := range in.st.hbound {
+			hb[k] = true
+		}
+	}
+	for k := range hb {
+		b0 := bnd(ins[0].st, k)
+		for _, in := range ins[1:] {
+			if bnd(in.st, k).S != b0.S {
+				b0 = out.alloc
+				break
+			}
+		}
+		if out.hbound == nil {
+			out.hbound = map[string]Term{}
+		}
+		out.hbound[k] = b0
+	}
 	return out
+}
+
+// heapBound: every reference stored in heap family name is below this allocation counter.
+func (s *State) heapBound(name string) Term {
+	if b, ok := s.hbound[name]; ok {
+		return b
+	}
+	return s.epochBound
+}
+
+// heapReplace installs a new (havocked) term for a family.
+func (e *Engine) heapReplace(st *State, name string, t Term) {
+	st.heap[name] = t
+	if st.hbound == nil {
+		st.hbound = map[string]Term{}
+	}
+	st.hbound[name] = st.alloc
 }
 
 func valIdentical(a, b Val) bool {
